@@ -258,8 +258,8 @@ Proof.
       replace (f_m x - f_m x / 2 ^ j * 2 ^ j) with (f_m x mod 2 ^ j) by lia.
       rewrite Z.abs_eq by lia. apply val4_lt_pow; try lia.
       destruct (Z.le_ge_cases k prec) as [L | G].
-      * assert (j = 0) by (unfold j; lia). replace (2 ^ j) with 1 in MB by (subst j; replace (Z.max 0 (k - prec)) with 0 by lia; reflexivity).
-        replace (f_m x mod 2 ^ j) with 0 by lia. lia.
+      * assert (E0 : 2 ^ j = 1) by (replace j with 0 by (unfold j; lia); reflexivity).
+        rewrite E0, Z.mod_1_r. lia.
       * assert (Ej : j = k - prec) by (unfold j; lia).
         assert (E2 : 2 ^ k = 2 ^ j * 2 ^ prec) by (rewrite <- Z.pow_add_r by lia; f_equal; lia).
         rewrite E2. pose proof (pow2_pos prec Hp). nia.
@@ -280,7 +280,7 @@ Proof.
       assert (E2 : Z.lor (py_shl (Z.land (M / 2 ^ i) 1) i) (M mod 2 ^ i) = M mod 2 ^ (i + 1)).
       { unfold py_shl. rewrite land1. rewrite lor_add_disjoint by (try apply Z.mod_pos_bound; lia).
         rewrite Z.pow_add_r by lia. change (2 ^ 1) with 2. rewrite Z.rem_mul_r by lia. ring. }
-      rewrite E1, E2. rewrite IH by lia. repeat f_equal; lia.
+      rewrite E1, E2. rewrite IH by lia. replace (i + 1 + (a - 1 - b)) with (i + (a - b)) by lia. reflexivity.
     + assert (a = b) by lia. subst a. rewrite Z.sub_diag, Z.add_0_r. reflexivity.
 Qed.
 
@@ -297,7 +297,7 @@ Proof.
   pose proof (red_prec_r_pow2 (fuel_of (2 ^ k)) (f_m x) k prec 0 Hp ltac:(lia) ltac:(lia)
                               ltac:(rewrite fuel_of_pow2; lia)) as H.
   rewrite Z.pow_0_r, Z.div_1_r, Z.mod_1_r, Z.add_0_l in H. rewrite H.
-  rewrite shl1 by lia. destruct (f_m x mod 2 ^ (k - prec) >? 2 ^ (k - prec - 1)); reflexivity.
+  rewrite shl1 by lia. destruct (f_m x mod 2 ^ (k - prec) >? 2 ^ (k - prec - 1)); [reflexivity | rewrite Z.add_0_r; reflexivity].
 Qed.
 
 Lemma reduce_precision_rounding_spec x prec : 0 <= prec -> 0 <= f_m x -> pow2 (f_p x) ->
@@ -355,7 +355,7 @@ Lemma unary_ex :
   let a := mkfp (-1) 3 13 8 false false in        (* -13 *)
   wf a /\ fin_ok a /\
   FPNum_neg a = mkfp 1 3 13 8 false false /\ FPNum_abs a = mkfp 1 3 13 8 false false /\
-  FPNum_div2 a 3 = mkfp (-1) 0 13 8 false false /\
+  FPNum_div2 a 3 = mkfp (-1) 0 104 64 false false /\        (* -13/8 *)
   FPNum_reducePrecision a 2 = mkfp (-1) 3 6 4 false false /\                (* -12 *)
   FPNum_reducePrecisionWithRounding a 1 = mkfp (-1) 3 3 2 false false /\    (* 13/8 -> 3/2 (dropped 01: down) *)
   FPNum_reducePrecisionWithRounding (mkfp (-1) 3 15 8 false false) 1 = mkfp (-1) 3 4 2 false false /\   (* dropped 11: up *)
